@@ -437,7 +437,15 @@ def run_cases(cases: List[Dict[str, Any]]) -> List[Tuple[List[Violation], Dict[s
         B = 64
         for j in range(0, len(rs_idx), B):
             chunk = rs_idx[j:j + B]
-            resp = rust.call({"cmd": "c14.run", "cases": [{"cfg": cases[i]["cfg"], "ops": cases[i]["ops"]} for i in chunk]})
+            req = {"cmd": "c14.run", "cases": [{"cfg": cases[i]["cfg"], "ops": cases[i]["ops"]} for i in chunk]}
+            try:
+                resp = rust.call(req)
+            except HarnessError:
+                # requests are stateless: if the harness subprocess went away (e.g. killed from outside), start a
+                # fresh one and repeat the batch once; a second failure is reported as a harness error
+                rsclient._shared = None
+                rust = rsclient.shared()
+                resp = rust.call(req)
             if not resp.get("ok"):
                 raise HarnessError(f"c14.run failed: {str(resp)[:300]}")
             for i, res in zip(chunk, resp["results"]):
